@@ -754,9 +754,12 @@ class KlongInterpreter():
         cache_key = (x, self._module)
         cached = self._parse_cache.get(cache_key)
         if cached is None:
+            module = self._module
             i, prog = self.prog(x)
             cached = prog[0] if len(prog) == 1 else prog
-            self._parse_cache[cache_key] = cached
+            if self._module is module:
+                # a text whose parsing switches the module (.module) has to be parsed every time
+                self._parse_cache[cache_key] = cached
 
         # Try compiled path (single expressions only)
         if type(cached) is not list:
